@@ -48,6 +48,7 @@ type restStep struct {
 	Issuer  string       `json:"issuer,omitempty"`
 	Account string       `json:"account,omitempty"`
 	Fresh   bool         `json:"fresh,omitempty"`
+	HV      int          `json:"http_variant,omitempty"` // index into httpVariants: how the POST travels
 }
 
 type c18Case struct {
@@ -167,7 +168,10 @@ func runRestStep(sv *restServer, s restStep) (labels []string, nt bool, err erro
 	labels = []string{"ep=" + s.Ep}
 	fail := func(f string, a ...any) ([]string, bool, error) { return labels, true, fmt.Errorf(f, a...) }
 	nondefault := s.HasDig || s.HasAlg || s.HasPer || s.HasSkew || !s.Sp.Canonical()
-	post := func(path string, body []byte) httpResult { return sv.do("POST", path, body, s.Fresh, 15*time.Second) }
+	post := func(path string, body []byte) httpResult { return sv.doV(path, body, s.Fresh, 15*time.Second, s.HV) }
+	if s.HV != 0 {
+		labels = append(labels, "http="+httpVariants[s.HV%len(httpVariants)])
+	}
 	switch s.Ep {
 	case "totp-gen", "chain-totp":
 		d, a, p, _ := s.eff()
@@ -549,7 +553,7 @@ func tailStr(s string, n int) string {
 }
 
 var c18Main = newPart("C18", "endpoints",
-	"rapid: sequences of 1..12 requests over all ten endpoints dealt to 1..8 concurrent clients on reused or fresh connections, against the REAL server binary built from the working tree on loopback; each JSON field independently present/absent, digits/algorithm spellings incl. unknown ones (fall back to 6 / SHA1), secrets in any base32 spelling incl. surrounding blanks, raw (registered) or structured suites, OCRA inputs admissible or not, validation codes at window distances -(s+2)..+(s+2) and edited, generate->validate chains, timestamp omitted (server clock); oracle: the independent RFC references for exactly the request's parameters under the documented mapping, the library called directly in the harness process (verdicts, URL builder, registry), and the suite-name reader; non-trivial = a request with a non-default field, a chain, a distance != 0 or an edited code",
+	"rapid: sequences of 1..12 requests over all ten endpoints dealt to 1..8 concurrent clients on reused or fresh connections, a third of the POSTs in one of nine HTTP-level variants of the same request (chunked body, Content-Type with a charset or absent, an extra query string, Expect: 100-continue, lower-case header names on a raw socket, Accept-Encoding: gzip, a pipelined pair of identical requests, HTTP/1.0), against the REAL server binary built from the working tree on loopback; each JSON field independently present/absent, digits/algorithm spellings incl. unknown ones (fall back to 6 / SHA1), secrets in any base32 spelling incl. surrounding blanks, raw (registered) or structured suites, OCRA inputs admissible or not, validation codes at window distances -(s+2)..+(s+2) and edited, generate->validate chains, timestamp omitted (server clock); oracle: the independent RFC references for exactly the request's parameters under the documented mapping, the library called directly in the harness process (verdicts, URL builder, registry), and the suite-name reader; non-trivial = a request with a non-default field, a chain, a distance != 0 or an edited code",
 	checkC18)
 
 func drawRestStep(t *rapid.T) restStep {
@@ -558,6 +562,9 @@ func drawRestStep(t *rapid.T) restStep {
 	s.Key = rapid.SliceOfN(rapid.Byte(), 1, 70).Draw(t, "key")
 	s.Sp = gen.DrawSpelling(t)
 	s.Fresh = rapid.IntRange(0, 5).Draw(t, "fresh") == 0
+	if rapid.IntRange(0, 2).Draw(t, "httpVariantQ") == 0 {
+		s.HV = rapid.IntRange(1, len(httpVariants)-1).Draw(t, "httpVariant")
+	}
 	s.HasDig = rapid.Bool().Draw(t, "hasDig")
 	s.Dig = rapid.SampledFrom(digitSpellings).Draw(t, "dig")
 	s.HasAlg = rapid.Bool().Draw(t, "hasAlg")
